@@ -36,7 +36,7 @@ def make_case(i, rng, tier):
     container = rng.choice(("hex", "hex", "swtpm", "pcapng"))
     if rng.random() < 0.025:
         # a long capture: the text / file crosses the block sizes a buffered reader would use (4096, 8192, 65536 ...)
-        inp = long_stream(rng, rng.choice((1500, 3000, 3000, 6000, 23000)))
+        inp = common.long_stream(rng, rng.choice((1500, 3000, 3000, 6000, 23000)))
         container = rng.choice(("hex", "hex", "swtpm"))
     elif container == "hex" and rng.random() < 0.4:
         inp = common.gen_input(rng, common.target_for(i, rng))
@@ -79,7 +79,18 @@ def make_case(i, rng, tier):
         blob = medium.write_swtpm_log(data, bounds, rng)
     else:
         blob, meta = medium.write_pcapng([data[a:b] for a, b in zip(bounds, bounds[1:])], rng)
-    if container in ("hex", "swtpm") and not mfaults and rng.random() < 0.3 and data:
+    if container == "hex" and not mfaults and inp["label"].startswith("long-stream") and len(blob) > 4200 and rng.random() < 0.5:
+        # torn write at a block boundary: the text is cut at an exact multiple of a buffered reader's block size, inside
+        # a pair (odd number of digits)
+        B = rng.choice([b_ for b_ in common.BLOCKS if b_ < len(blob)])
+        cut = B * rng.randint(1, len(blob) // B)
+        for pad in range(6):
+            cand = (b" " * pad + blob)[:cut]
+            if medium.ref_hex_read(cand)[2] == "odd number of digits":
+                blob = cand
+                fault = {"kind": "tear", "byte": len(medium.ref_hex_read(cand)[0]), "aligned_to": B}
+                break
+    if fault is None and container in ("hex", "swtpm") and not mfaults and rng.random() < 0.3 and data:
         ends = medium.ref_hex_pair_ends(blob) if container == "hex" else medium.ref_swtpm_pair_ends(blob)
         j = rng.randrange(len(ends))
         e = ends[j]                      # index just after the 2nd digit of byte j
@@ -112,25 +123,6 @@ def make_case(i, rng, tier):
     tasks, sched = common.perturb(rng, tasks, p_by=0.1)
     return {"input": {"label": inp["label"], "container": container, "fault": fault, "message_faults": mfaults},
             "tasks": tasks, "schedule": sched}
-
-
-def long_stream(rng, min_bytes):
-    """well-formed stream of at least min_bytes bytes"""
-    from .. import gen
-    k = gen.Knobs(rng)
-    k.max_buf = max(k.max_buf, 32)
-    g = gen.Gen(rng, k)
-    trees, metas, n = [], [], 0
-    while n < min_bytes:
-        g.nodes = 0
-        cmd, rsp = g.exchange()
-        for t_, meta in ((cmd, dict(kind="command", cc=None, enc=None)), (rsp, dict(kind="response", cc=cmd[2], enc=True if rsp[7] else None))):
-            trees.append(t_)
-            metas.append(meta)
-            n += len(gen.serialise(t_)[0])
-    data, items, bounds = gen.serialise_stream(trees)
-    return dict(root=model.STREAM, data=data, cc=None, enc=None, items=items, arms=g.arms, knobs=k, bounds=bounds, metas=metas,
-                label="long-stream:%d" % len(trees))
 
 
 def check(case):
